@@ -470,4 +470,23 @@ structure SemRefinesUpToGrowth (A gs : DemogSem) : Prop where
 
 end Growth
 
+/-! ## Graph → ms → graph without the lineage movements (§9 of Theorems/C09.lean)
+
+The lineage movements of the graph `from_ms` returns are proved on the fragments `C08.Tame'` / `C08.Tame2` only;
+everything else `SemRefines` asks is proved for every command `from_ms` accepts. -/
+
+section NoMoves
+open Demes.Spec.MsSem (DemogSem)
+
+/-- **`SemRefines` without its last clause** (the lineage movements): the same populations in the same order, the
+same lifetimes, at every time of a deme's lifetime the deme's size, the same migration rates on the lifetimes. -/
+structure SemRefinesSizesMigs (A gs : DemogSem) : Prop where
+  ids : A.pops.map (·.id) = gs.pops.map (·.id)
+  lives : ∀ ab ∈ A.pops.zip gs.pops, ab.1.hi = ab.2.hi ∧ ab.1.lo ≤ ab.2.lo
+  sizes : ∀ ab ∈ A.pops.zip gs.pops, ∀ t, ab.2.lo ≤ t → ETime.fin t < ab.2.hi →
+    (sizeAt ab.2 t).isSome = true ∧ sizeAt ab.1 t = sizeAt ab.2 t
+  migs : migsRefine A gs = true
+
+end NoMoves
+
 end Demes.Spec.C09
